@@ -383,8 +383,8 @@ COMMON = {
     "transitions": transitions,
     "nontrivial": nontrivial,
     "all_transitions": ALL_TR,
-    "model_modules": ["TR.Model.Circuit", "TR.Lemmas.Circuit"],
-    "lean_files": ["TR.Model.Circuit", "TR.Lemmas.Circuit"],
+    "model_modules": ["TR.Model.Circuit", "TR.Lemmas.Circuit", "TR.Lemmas.CircuitState", "TR.Lemmas.CircuitWindow", "TR.Lemmas.CircuitRefine", "TR.Spec.Breaker"],
+    "lean_files": ["TR.Model.Circuit", "TR.Lemmas.Circuit", "TR.Lemmas.CircuitState", "TR.Lemmas.CircuitWindow", "TR.Lemmas.CircuitRefine", "TR.Spec.Breaker"],
     "sizes": (400, 20000),
     "trusted": ["transcription of Circuit / CircuitBreaker::call in TR.Model.Circuit (sampled by the correspondence check)",
                 "exact-rational threshold comparison = f64 comparison for the generated window sizes",
